@@ -178,6 +178,15 @@ def base_object(op):
     d = C.build(ver, typ, n, 1500000000000000, 1500000001000000, tuple(rich), tuple(common))
     if op.get('gm'):
         d['granular_markings'] = [{'marking_ref': C.TLP['amber'], 'selectors': ['type', 'created']}]
+        if ver == '2.1' and n % 3 == 1:
+            # two registered toplevel-property extensions on one object (registered by the world, see storeworld.register_customs)
+            a, b = 'extension-definition--' + C.mkuuid(1, 'sim-toplevel'), 'extension-definition--' + C.mkuuid(2, 'sim-toplevel')
+            exts = [(a, {'extension_type': 'toplevel-property-extension'}), (b, {'extension_type': 'toplevel-property-extension'})]
+            if n % 2:
+                exts.reverse()
+            d['extensions'] = dict(exts)
+            d['rank'] = 1
+            d['score'] = 2
         if ver == '2.1' and n % 3 == 0:
             # content the library keeps as-is: an unregistered property extension
             d['extensions'] = {'extension-definition--' + C.mkuuid(5, 'c17ext'): {'extension_type': 'property-extension', 'rank': 5,
@@ -194,7 +203,7 @@ class C17(Profile):
     wall_cap = {'quick': 1200, 'thorough': 6 * 3600}
     probes = ['corruption_at_depth>=3', 'corruption_in_extension', 'corruption_in_embedded_object', 'stored_file_corrupted',
               'saved_bundle_corrupted', 'stream_input', 'call_raised_library_error', 'call_returned', 'atomicity_checked_store',
-              'atomicity_checked_registry', 'list_add_prefix_checked', 'multi_site_corruption', 'observed_data_member_corrupted']
+              'atomicity_checked_registry', 'list_add_prefix_checked', 'multi_site_corruption', 'observed_data_member_corrupted', 'two_toplevel_extensions']
     rule = ('plans: 30-80 calls; each takes a valid object (every SDO/SRO type of both versions, 2.1 SCOs, SCOs with nested extensions, 2.0 '
             'observed-data with members, marking definitions, language-content), applies 1-3 wrong-kind replacements at plan-chosen sites of any '
             'depth, and delivers it through one of 18 entry points (parse of dict/text/stream, constructor, new_version, revoke, Bundle, '
@@ -249,6 +258,7 @@ class C17(Profile):
         self.sw = sw
         self.world = world
         self.allowed = (stix2.exceptions.STIXError, ValueError, TypeError)
+        self.shape0 = world.reg.shape()
         self.mkeys = set()
         self.fkeys = set()
         for i, op in enumerate(plan['ops']):
@@ -273,6 +283,8 @@ class C17(Profile):
             world.probe('observed_data_member_corrupted')
         if len(desc) > 1:
             world.probe('multi_site_corruption')
+        if any(d['prop'] in ('score', 'rank') for d in desc):
+            world.probe('two_toplevel_extensions')
         if out.ok:
             world.probe('call_returned')
             return
@@ -310,10 +322,14 @@ class C17(Profile):
     def atomic_registry(self, entry):
         diff = self.world.reg.diff()
         # the world's own registrations (x-sim-widget) are part of its baseline
-        diff = [d for d in diff if d[2] != 'x-sim-widget']
+        own = ('x-sim-widget', self.sw.TL_A, self.sw.TL_B)
+        diff = [d for d in diff if d[2] not in own]
         self.world.probe('atomicity_checked_registry')
         if diff:
             raise Violation('failure-atomicity', 'C17.registry-changed/%s' % entry, dict(diff=diff[:5]))
+        mutated = self.world.reg.shape_diff(self.shape0, self.world.reg.shape())
+        if mutated:
+            raise Violation('failure-atomicity', 'C17.registered-class-mutated/%s' % entry, dict(classes=mutated[:5]))
 
     def step(self, op, i):
         s = self.s
